@@ -169,7 +169,7 @@ impl QueryTask {
         let mut explains = Vec::new();
         while let Some((partition, id)) = self.next_partition() {
             #[cfg(locustdb_verif)]
-            crate::verif::gate("query:before_partition", &format!("{}", id));
+            crate::verif::gate("query:before_partition", partition.verif_table_name());
             let show = self.show.contains(&id);
             let cols =
                 partition.get_cols(&self.referenced_cols, &self.db, self.perf_counter.as_ref());
